@@ -38,7 +38,9 @@ Move(b, f) == f \in DOMAIN wt[b] /\ EditTo(b, [wt[b] EXCEPT ![f].parent = IF @ =
 Chmod(b, f) == f \in DOMAIN wt[b] /\ EditTo(b, [wt[b] EXCEPT ![f].exec = ~@], "chmod")
 RenameDir(b) == EditTo(b, [wt[b] EXCEPT ![DirId].name = IF @ = "d" THEN "e" ELSE "d"], "renamedir")
 Remove(b, f) == WithRemove /\ f \in DOMAIN wt[b] /\ EditTo(b, [i \in DOMAIN wt[b] \ {f} |-> wt[b][i]], "remove")
-ReAdd(b, f) == WithRemove /\ f \notin DOMAIN wt[b]
+\* (no re-add while a merge is pending: with two parent trees the working tree reports a removed and re-added id twice and
+\*  commit then drops the file - a working-tree defect outside C02)
+ReAdd(b, f) == WithRemove /\ f \notin DOMAIN wt[b] /\ pm[b] = 0
                /\ EditTo(b, [i \in DOMAIN wt[b] \cup {f} |-> IF i = f THEN FileEntry("R", FALSE, "x", f) ELSE wt[b][i]], "readd")
 Commit(b) ==
     LET r == Len(P) + 1
